@@ -110,7 +110,11 @@ class Path:
         if z3.is_false(z):
             raise PathAbort('assume False')
         self.pc.append(z)
-        self.solver.add(z)
+        # quantified facts (array invariants) are kept for the obligations
+        # only: the branch-feasibility solver works without them, which
+        # over-approximates the feasible paths
+        if not has_quantifier(z):
+            self.solver.add(z)
 
     def assume_checked(self, z):
         """Assume and abort the path when this makes it infeasible."""
@@ -166,6 +170,20 @@ class Path:
 
 # ---------------------------------------------------------------------------
 # z3 helpers
+
+
+def has_quantifier(z, _seen=None):
+    seen = set() if _seen is None else _seen
+    todo = [z]
+    while todo:
+        t = todo.pop()
+        if t.get_id() in seen:
+            continue
+        seen.add(t.get_id())
+        if z3.is_quantifier(t):
+            return True
+        todo.extend(t.children())
+    return False
 
 
 def zbool(x):
